@@ -153,7 +153,10 @@ fn op_name(op: &Op) -> &'static str {
 
 struct Model {
     seq: Vec<u8>,
+    /// Look-ahead rows the last configure call asked for (0 after striping).
     wrap: usize,
+    /// No configure call since the last striping.
+    fresh: bool,
 }
 
 /// Compare the whole matrix with the model. Returns a description of the first difference.
@@ -166,14 +169,21 @@ fn compare<A: Alphabet, C: PositiveLength>(s: &StripedSequence<A, C>, m: &Model)
     if s.len() != l {
         return Some(("len".into(), format!("len() = {} but the sequence has {} symbols", s.len(), l)));
     }
-    if s.wrap() != m.wrap {
-        return Some(("wrap".into(), format!("wrap() = {} but {} look-ahead rows were requested", s.wrap(), m.wrap)));
+    // look-ahead rows: none after striping (fresh and reused buffers give identical matrices); after
+    // configure_wrap(m) at least m of them (how many more an implementation keeps is its business),
+    // every one of them holding the shifted sequence row
+    let wrap = s.wrap();
+    if m.fresh && wrap != 0 {
+        return Some(("wrap".into(), format!("wrap() = {} right after striping (a fresh buffer has none)", wrap)));
+    }
+    if wrap < m.wrap {
+        return Some(("wrap".into(), format!("wrap() = {} but {} look-ahead rows were requested", wrap, m.wrap)));
     }
     let mx = s.matrix();
-    if mx.rows() != r + m.wrap {
-        return Some(("rows".into(), format!("matrix has {} rows, expected {} sequence rows + {} look-ahead rows", mx.rows(), r, m.wrap)));
+    if mx.rows() != r + wrap {
+        return Some(("rows".into(), format!("matrix has {} rows, expected {} sequence rows + {} look-ahead rows", mx.rows(), r, wrap)));
     }
-    for row in 0..r + m.wrap {
+    for row in 0..r + wrap {
         let data = &mx[row];
         for col in 0..c_n {
             let want = if r == 0 {
@@ -192,7 +202,7 @@ fn compare<A: Alphabet, C: PositiveLength>(s: &StripedSequence<A, C>, m: &Model)
                 let part = if row < r { "sequence-row" } else { "look-ahead-row" };
                 return Some((
                     part.into(),
-                    format!("cell (row {}, column {}) holds symbol #{} but the model says #{} (L={}, C={}, R={}, wrap={})", row, col, got, want, l, c_n, r, m.wrap),
+                    format!("cell (row {}, column {}) holds symbol #{} but the model says #{} (L={}, C={}, R={}, wrap={})", row, col, got, want, l, c_n, r, wrap),
                 ));
             }
         }
@@ -207,7 +217,7 @@ fn run_typed<A: Alphabet, C: PositiveLength, B: Backends<A, C>>(sc: &Sc, o: &mut
     let tags = |field: &str, op: &Op| format!("op={},part={}", op_name(op), field);
     let to_syms = |v: &[u8]| -> Vec<A::Symbol> { v.iter().map(|&i| A::symbols()[i as usize]).collect() };
     alloc::begin_run(sc.alloc);
-    let mut model = Model { seq: Vec::new(), wrap: 0 };
+    let mut model = Model { seq: Vec::new(), wrap: 0, fresh: true };
     let mut buf: StripedSequence<A, C> = match sut(|| StripedSequence::<A, C>::default()) {
         Ok(b) => b,
         Err(p) => {
@@ -255,6 +265,7 @@ fn run_typed<A: Alphabet, C: PositiveLength, B: Backends<A, C>>(sc: &Sc, o: &mut
                 }
                 model.seq = content;
                 model.wrap = 0;
+                model.fresh = true;
                 r.map(|_| None)
             }
             Op::ToStriped(spec) => {
@@ -267,16 +278,19 @@ fn run_typed<A: Alphabet, C: PositiveLength, B: Backends<A, C>>(sc: &Sc, o: &mut
                 });
                 model.seq = content;
                 model.wrap = 0;
+                model.fresh = true;
                 r.map(|_| None)
             }
             Op::ConfigureWrap(m) => {
+                let before = buf.wrap();
                 let r = sut(|| buf.configure_wrap(m));
-                if m <= model.wrap {
+                if m <= before {
                     o.probe("wrap-request-not-above-current(idempotence)");
                 }
-                model.wrap = model.wrap.max(m);
+                model.wrap = m;
+                model.fresh = false;
                 let rows = (model.seq.len() + C::USIZE - 1) / C::USIZE;
-                if model.wrap > rows && rows > 0 {
+                if buf.wrap() > rows && rows > 0 {
                     o.probe("wrap-larger-than-row-count");
                 }
                 r.map(|_| None)
@@ -287,7 +301,8 @@ fn run_typed<A: Alphabet, C: PositiveLength, B: Backends<A, C>>(sc: &Sc, o: &mut
                     buf.configure(&pssm)
                 });
                 if w > 0 {
-                    model.wrap = model.wrap.max(w - 1);
+                    model.wrap = w - 1;
+                    model.fresh = false;
                 }
                 r.map(|_| None)
             }
@@ -355,7 +370,7 @@ fn run_typed<A: Alphabet, C: PositiveLength, B: Backends<A, C>>(sc: &Sc, o: &mut
             return;
         }
         prev_rows = buf.matrix().rows();
-        crate::ev!(o.trace, "op#{} {:?} -> L={} rows={} wrap={}", i, op, model.seq.len(), prev_rows, model.wrap);
+        crate::ev!(o.trace, "op#{} {:?} -> L={} rows={} wrap={}", i, op, model.seq.len(), prev_rows, buf.wrap());
     }
     if let Err(p) = sut(move || drop(buf)) {
         o.violate(Violation::new(p.class(), "op=drop", p.msg));
@@ -655,7 +670,7 @@ impl Sim for StripeSim {
 
     fn assumptions(_prop: &str) -> Vec<String> {
         vec![
-            "Reference model: symbol i at (row i mod R, column i div R), R = ceil(L/C); look-ahead cell (R+k, c) holds the symbol of linear index c*R+R+k when that index is < L and its real column c + (R+k) div R is < C, else the wildcard; wrap := 0 on stripe, max(wrap, m) on configure_wrap(m).".into(),
+            "Reference model: symbol i at (row i mod R, column i div R), R = ceil(L/C); look-ahead cell (R+k, c) holds the symbol of linear index c*R+R+k when that index is < L and its real column c + (R+k) div R is < C, else the wildcard; wrap() = 0 right after striping, >= m after configure_wrap(m), and the matrix has exactly R + wrap() rows.".into(),
             "AVX2 striping is exercised only if the machine has AVX2 (it does here).".into(),
         ]
     }
